@@ -21,8 +21,9 @@ NOTES = {
     "C01c": "correct over the reals (the cosine never leaves [-1, 1] in exact arithmetic), NaN only through binary64 rounding: invisible in real mode (DESIGN 11.3)",
     "C12d": "the one-pass variance equals the two-pass one over the reals (cancellation is a rounding effect): the intended defect is invisible in real mode; "
             "what C12 reports is a side effect of the same edit (ZeroDivisionError instead of nan for an empty error array)",
-    "C09a": "the changed code path is executed by the facade; the half-turn case is a poison (division by sin = 0) path whose "
-            "reachability the solver does not decide within the budget, the generic path needs |vee(R-R^T)| = 2 sin: inconclusive",
+    "C09a": "found after 28 min: the half-turn case is a division-by-zero (poison) path and angles beyond pi near it; every other "
+            "obligation first runs into its time-out",
+    "C04d": "no verdict within 60 min (DESIGN 11.3): not a pass",
     "C10a": "the solver finds a counterexample sitting exactly on a threshold; it does not reproduce in binary64: exit 3, no VIOLATION line",
 }
 
